@@ -289,7 +289,10 @@ pub fn gen_request(s: &mut Src, cfg: &GenCfg, notes: &mut Notes, out: &mut Vec<u
         }
         _ => {
             notes.add("cl_edge");
-            let (t, d): (&str, usize) = match s.below(9) {
+            let (t, d): (&str, usize) = match s.below(12) {
+                9 => ("00000000005", 5),
+                10 => ("+0000000009", 9),
+                11 => ("0000000000000000000012", 12),
                 0 => ("007", 7),
                 1 => ("+5", 5),
                 2 => ("4294967295", 4294967295),
@@ -385,6 +388,18 @@ pub fn gen_stream(s: &mut Src, cfg: &GenCfg) -> (Vec<u8>, Notes) {
     let mut notes = Notes::default();
     let mut out = Vec::new();
     let n = 1 + s.weighted_n(cfg.max_reqs);
+    if cfg.big && s.chance(6) {
+        // a burst of very small requests: dozens complete within one read
+        notes.add("burst_of_tiny_requests");
+        let k = s.range(17, 70);
+        for i in 0..k {
+            if s.chance(40) {
+                out.extend_from_slice(format!("PUT /{} HTTP/1.1\r\nContent-Length: 1\r\n\r\nz", i).as_bytes());
+            } else {
+                out.extend_from_slice(format!("GET /{} HTTP/1.{}\r\n\r\n", i, i % 2).as_bytes());
+            }
+        }
+    }
     for _ in 0..n {
         gen_request(s, cfg, &mut notes, &mut out);
         if out.len() > 300_000 {
